@@ -446,6 +446,11 @@ func c05Primary(r *Run, shape string, faulting, nested bool) {
 	case "journal-commit", "journal-first":
 		prog := GenProgram(t, h.ref.N(), h.maxPages, 0)
 		prog.Outcome = OutCommit
+		if shape == "journal-first" && t.Chance(1, 2) {
+			// an application whose first statement is PRAGMA journal_mode=WAL:
+			// the transaction that creates the database writes a WAL-mode header
+			prog.SetWAL = 1
+		}
 		if h.ref.N() >= 4 && t.Chance(1, 2) {
 			// multi-segment journal: several pages, a spill after the first ones
 			for pg := uint32(1); pg <= min32(h.ref.N(), 5); pg++ {
